@@ -573,7 +573,14 @@ def run_scripts(ck, h, scripts):
     outs, start, crashes = [], 0, []
     while start < len(scripts):
         rc, out, err = ck.run_lines(h, scripts[start:], timeout=3000)
-        out = [l for l in out if " || " in l or l.startswith("new:") or l.startswith("?")]
+        # the library prints a few diagnostics with newlines to stdout ("Ignored n bytes of possible early_data"): one
+        # case = all physical lines up to and including the one that carries the " || " log separator
+        cases_out, acc = [], []
+        for l in out:
+            acc.append(l)
+            if " || " in l:
+                cases_out.append(" ".join(acc)); acc = []
+        out = cases_out
         if len(out) >= len(scripts) - start:
             outs += out[:len(scripts) - start]; break
         k = start + len(out)
